@@ -26,6 +26,8 @@ import (
 )
 
 type item struct {
+	alt string // second protocol line whose result is accepted as well (inputs inside a known-finding class: the
+	// repaired behaviour must not raise an alarm)
 	line string   // protocol line for the model
 	goR  []string // implementation results (several runs when Go's map order matters); each must be allowed by the model
 	set  bool     // model answers with a `|`-separated set of possible results
@@ -755,6 +757,21 @@ func (g *gen) pipeCases(n int) {
 		}
 		line := fmt.Sprintf("pipe.run %s %s %s %s %s", vh.B01(quads), vh.B01(ascii), h, src, doc)
 		g.add("run", line, []string{goPipe(quads, ascii, h, src, qs)}, false, len(qs) > 0)
+		if !quads && src == "q" {
+			// D20 (named-graph-to-triples-target): dropping the statements of named graphs is the behaviour the
+			// property asks for; accept it too
+			var kept []string
+			for j, q := range qs {
+				if q.g.g == nil && q.g.node == nil {
+					kept = append(kept, parts[j])
+				}
+			}
+			alt := strings.Join(kept, ";")
+			if alt == "" {
+				alt = "-"
+			}
+			g.items[len(g.items)-1].alt = fmt.Sprintf("pipe.run %s %s %s %s %s", vh.B01(quads), vh.B01(ascii), h, src, alt)
+		}
 	}
 	// the adapters alone, on labelled statements
 	for i := 0; i < n/4+1; i++ {
@@ -785,11 +802,27 @@ func (g *gen) pipeCases(n int) {
 					if tgt == "t" {
 						c := &captureTriples{}
 						encodingutil.QuadAsTripleEncoder{TriplesEncoder: c}.AddQuad(ctx, q)
+						if len(c.got) == 0 {
+							continue
+						}
 						q = rdf.Quad{Triple: c.got[0]}
 					}
 					out = append(out, vh.QuadWire(q, tbl.GetBlankNodeString))
 				}
 				g.add("stmts", fmt.Sprintf("pipe.stmts %s %s %s", src, tgt, doc), []string{strings.Join(out, ";")}, false, len(gq) > 0)
+				if src == "q" && tgt == "t" {
+					var kept []string
+					for j, q := range gq {
+						if q.G == nil {
+							kept = append(kept, parts[j])
+						}
+					}
+					alt := strings.Join(kept, ";")
+					if alt == "" {
+						alt = "-"
+					}
+					g.items[len(g.items)-1].alt = fmt.Sprintf("pipe.stmts %s %s %s", src, tgt, alt)
+				}
 			}
 		}
 	}
